@@ -388,7 +388,7 @@ pub fn run(seed: u64, count: usize, maxn: usize, mode: &str, out: &mut impl Writ
     // many distinct multi-SCC digraphs with several bridge arcs between consecutive
     // components, each under a single configuration (level All): the SCC-graph bridge
     // selection and the propagation of bounds through it only show up on such graphs
-    for i in 0..(count * 6) {
+    for i in 0..(count * 24) {
         let n = rng.range(6, 16);
         let mut g: Graph;
         loop { let (gg, fam) = rand_digraph(&mut rng, n); if fam == "bridges" || fam == "sccs" { g = gg; break; } }
